@@ -27,6 +27,10 @@ def run(ctx):
     from . import meta_rules
     meta_rules.rowcount_rule(ctx, 'R19.5', only_modules={'api', 'writer'})
     ar.mode_params_rule(ctx, 'R19.6')
+    ar.compat_checks_rule(ctx, 'R19.7')
+    from . import c07 as _c07, c01 as _c01
+    _c07.r712(ctx, 'R19.8')
+    _c01.r121(ctx, 'R19.9')
     from . import c08 as _c08
     _c08.r84(ctx, ctx.repo['util'])
     _cs.general_rules(ctx, 'R19', ['writer.write', 'writer.write_multi', 'writer.partition_on_columns', 'writer.make_part_file', 'api.ParquetFile.write_row_groups', 'api.ParquetFile._write_common_metadata', 'writer.write_common_metadata'])
